@@ -65,6 +65,9 @@ def cases(ctx):
             for vdoc in fn(rng, doc)[:2]:
                 yield from emit(vdoc, 'known:' + rule)
 
+    # 0. literal instances of the native-sample rule (interleaved families, late metadata, an undeclared name)
+    for d in omgen.NATIVE_FOREIGN_DOCS:
+        yield from emit(d, 'native_sample_foreign_family')
     # 1. small documents: one family of each type, every rule at every position
     for i in range(18):
         g = omgen.Gen(rng, nh=False, rich=(i % 4 != 0))
